@@ -908,6 +908,7 @@ fn run_inner(case: &StressCase) -> SResult {
     let exec = case.exec;
     let cfg = case.cfg.clone();
     let wb = w_before;
+    let lone_closer = case.threads.len() == 1;
     let check = move || -> Option<SResult> {
         let t = n;
         post.register(t);
@@ -964,6 +965,19 @@ fn run_inner(case: &StressCase) -> SResult {
                             }
                         };
                         let before = api2.snapshot();
+                        // C19: a lone close() (nothing racing it) leaves the synchronous cache empty
+                        // - close() clears before it stops the workers - and the async cache must
+                        // show the same
+                        if quiet && lone_closer && exec.is_async() {
+                            let l = api2.len();
+                            if !before.entries.is_empty() || !before.costs.is_empty() || l != 0 {
+                                return Some(SResult::violation(
+                                    &["C19"],
+                                    "async_close_differs",
+                                    format!("after a lone close() the async cache still holds {} entries / {} charges (len() {}); the synchronous cache is empty at this point", before.entries.len(), before.costs.len(), l),
+                                ));
+                            }
+                        }
                         post.enter(t, 3);
                         let r1 = api2.remove(1);
                         post.leave(t);
